@@ -29,23 +29,25 @@ def treeShape : Shape :=
 /-- recv, is_compiling=true, parse_project, 3 × last_compilation_state write, is_compiling=false,
 retrigger=false, is_empty, notify_waiters. -/
 def shapeOrig : Shape :=
-  { worker := [1, 4, 7, 8, 8, 8, 5, 2, 10, 11]
+  { worker := [1, 4, 7, 8, 8, 8, 5, 2, 10, 11, 25]
     waitForParsing := [6, 9, 10, 14, 12, 13]
-    didOpen := [13, 13, 15, 4, 16, 13, 13]
+    didOpen := [13, 24, 24, 13, 15, 4, 16, 13, 13]
     sendRequest := [6, 3, 17, 18, 19]
-    didChange := [20, 13, 15]
-    didSave := [15, 16, 13, 13]
+    didChange := [24, 24, 20, 13, 24, 15]
+    didSave := [24, 24, 24, 15, 16, 13, 13]
     mentions := [9, 12, 6, 6, 8, 8] }
 
 /-- recv, retrigger=false, is_compiling=true, …, is_compiling=false, is_empty, notify_waiters;
-`notified()` first in `wait_for_parsing`; `is_compiling=true` before the send in `did_open`. -/
+`notified()` first in `wait_for_parsing`; in `did_open` both fallible look-ups (token 24 = `?`) come
+before `is_compiling=true` (4), which comes before the send (15): a handler that returns early has
+touched no shared state. `did_change`: `?`, `?`, write, `.await?`, send. `did_save`: three `?`, send. -/
 def shapeFixed : Shape :=
-  { worker := [1, 2, 4, 7, 8, 8, 8, 5, 10, 11]
+  { worker := [1, 2, 4, 7, 8, 8, 8, 5, 10, 11, 25]
     waitForParsing := [12, 6, 9, 10, 14, 13]
-    didOpen := [13, 13, 4, 15, 16, 13, 13]
+    didOpen := [13, 24, 24, 13, 4, 15, 16, 13, 13]
     sendRequest := [6, 3, 17, 18, 19]
-    didChange := [20, 13, 15]
-    didSave := [15, 16, 13, 13]
+    didChange := [24, 24, 20, 13, 24, 15]
+    didSave := [24, 24, 24, 15, 16, 13, 13]
     mentions := [9, 12, 6, 6, 8, 8] }
 
 def cfgOfShape (s : Shape) : Option Cfg :=
